@@ -151,8 +151,10 @@ func parseV1PortNumber(portStr string) (uint16, error) {
 
 func parseV1IPAddress(protocol AddressFamilyAndProtocol, addrStr string) (addr net.IP, err error) {
 	addr = net.ParseIP(addrStr)
-	tryV4 := addr.To4()
-	if (protocol == TCPv4 && tryV4 == nil) || (protocol == TCPv6 && tryV4 != nil) {
+	// the address family is decided by the notation, so that an IPv4-mapped
+	// IPv6 address (e.g. ::ffff:102:304) is valid for TCP6 and not for TCP4
+	isV6 := strings.Contains(addrStr, ":")
+	if addr == nil || (protocol == TCPv4 && isV6) || (protocol == TCPv6 && !isV6) {
 		err = ErrInvalidAddress
 	}
 	return
